@@ -156,9 +156,26 @@ FIXED_WITNESSES = [   # the shapes repaired by the four fix commits of 2026-09-2
 ]
 
 
+def same_name_grouping_cases(rng):
+    """a join of two tables that share a column name: both same-named columns, each under its own qualifier, in
+    the select list and in GROUP BY - two grouping columns, not one named twice"""
+    o = {"name": "o", "cols": [{"name": "k", "type": "int"}, {"name": "year", "type": "int"}, {"name": "v", "type": "int"}],
+         "rows": [[1, 2020, 5], [1, 2020, 7], [2, 2020, 1], [2, 2021, 3], [3, 2021, 9], [3, 2021, 2], [1, 2021, 4]]}
+    c = {"name": "c", "cols": [{"name": "k", "type": "int"}, {"name": "year", "type": "int"}],
+         "rows": [[1, 2001], [2, 2001], [2, 2002], [3, 2002], [3, 2003]]}
+    qs = ["SELECT o.year, c.year, count(*) FROM o JOIN c ON o.k = c.k GROUP BY o.year, c.year",
+          "SELECT c.year, o.year, count(o.v) FROM o JOIN c ON o.k = c.k GROUP BY c.year, o.year",
+          "SELECT o.year, c.year, count(*) FROM o LEFT JOIN c ON o.k = c.k GROUP BY o.year c.year",
+          "SELECT a.year, b.year, count(*) FROM o a JOIN o b ON a.k = b.k GROUP BY a.year, b.year",
+          "SELECT o.year y1, c.year y2, count(*) FROM o JOIN c ON o.k = c.k GROUP BY y1, y2",
+          "SELECT o.k, c.k, o.year, count(*) FROM o JOIN c ON o.year > c.year GROUP BY o.k, c.k, o.year"]
+    rng.shuffle(qs)
+    return {"tables": [o, c], "queries": qs, "kind": "same_name_grouping"}
+
+
 def generate(rng, tier):
     n = 160 if tier == "quick" else 700
-    cases = [WITNESS, half_cases()] + FIXED_WITNESSES
+    cases = [WITNESS, half_cases(), same_name_grouping_cases(rng)] + FIXED_WITNESSES
     for _ in range(n):
         cases += gen_case(rng, tier)
     return cases
